@@ -98,6 +98,10 @@ def corpus():
                          dict(op='dispatch', path='/nowhere', verb='GET', sent=dict(path='/s', verb='GET')),
                          dict(op='dispatch', path='/s', verb='GET', sent=dict(path='/nowhere', verb='BREW')),
                          dict(op='dispatch', path='/w/7', verb='PUT', sent=dict(path='/w/é', verb='GET'))]))
+    # OPTIONS (sent with the CORS preflight headers, any case): 405 + Allow unless OPTIONS / ANY is registered
+    cs.append(dict(cmds=[dict(op='add', rule='/s', methods=['GET', 'POST'], h=1), dict(op='add', rule='/w/<x>', methods=['OPTIONS'], h=2),
+                         dict(op='add', rule='/a/b', methods=['ANY'], h=3)]
+                   + _probe_all(['/s', '/w/7', '/a/b', '/t'], ['OPTIONS', 'options', 'Options', 'GET'])))
     # HEAD registered explicitly wins over GET
     cs.append(dict(cmds=[dict(op='add', rule='/s', methods=['GET'], h=1), dict(op='add', rule='/s', methods=['HEAD'], h=2)]
                    + _probe_all(['/s'])))
